@@ -40,7 +40,7 @@ Definition cfg_ok (sx : static) (cfg : taskcfg) : Prop :=
 
 Definition ev_ok (sx : static) (e : event) : Prop :=
   match e with
-  | EvChan k a (Some x) _ => chan_static_ok sx k x
+  | EvChan k a (Some x) _ => a = IGN \/ chan_static_ok sx k x      (* an ignored event writes nothing *)
   | EvOoc k _ x => chan_static_ok sx k x
   | EvTask cfg _ _ _ _ => cfg_ok sx cfg
   | _ => True
